@@ -42,12 +42,12 @@ def gen_capacity(rng, small):
     return rng.randrange(1, 100000)
 
 
-def gen_type(rng, depth, names, small_caps=False, in_array=False, allow_delim=True):
+def gen_type(rng, depth, names, small_caps=False, in_array=False, allow_delim=True, nested_arrays=False):
     """A random scalar-or-array type that is valid as a structure field (or array element when in_array)."""
     r = rng.random()
     if depth <= 0 or r < 0.3:
         return gen_prim(rng)
-    if r < 0.6 and not in_array:
+    if r < 0.6 and (not in_array or (nested_arrays and rng.random() < 0.5)):
         kind = rng.choice(["fix", "var", "var"])
         sub = rng.random()
         if sub < 0.1:
@@ -55,12 +55,12 @@ def gen_type(rng, depth, names, small_caps=False, in_array=False, allow_delim=Tr
         elif sub < 0.2 and kind == "var":
             e = {"k": "prim", "p": "utf8"}
         else:
-            e = gen_type(rng, depth - 1, names, small_caps, in_array=True, allow_delim=allow_delim)
-        return {"k": kind, "e": e, "n": gen_capacity(rng, small_caps)}
-    return gen_composite(rng, depth - 1, names, small_caps, allow_delim)
+            e = gen_type(rng, depth - 1, names, small_caps, in_array=True, allow_delim=allow_delim, nested_arrays=nested_arrays)
+        return {"k": kind, "e": e, "n": gen_capacity(rng, small_caps or in_array)}
+    return gen_composite(rng, depth - 1, names, small_caps, allow_delim, nested_arrays=nested_arrays)
 
 
-def gen_composite(rng, depth, names, small_caps=False, allow_delim=True, force=None):
+def gen_composite(rng, depth, names, small_caps=False, allow_delim=True, force=None, nested_arrays=False):
     kind = force or rng.choice(["struct", "struct", "union"])
     nf = rng.choice([0, 1, 2, 2, 3, 4, 5]) if kind == "struct" else rng.choice([2, 2, 3, 4])
     fs = []
@@ -68,7 +68,7 @@ def gen_composite(rng, depth, names, small_caps=False, allow_delim=True, force=N
         if kind == "struct" and rng.random() < 0.15:
             fs.append([None, {"k": "void", "w": rng.choice([1, 2, 3, 7, 8, 13, 32, 64])}])
         else:
-            fs.append(["f%d" % i, gen_type(rng, depth, names, small_caps, allow_delim=allow_delim)])
+            fs.append(["f%d" % i, gen_type(rng, depth, names, small_caps, allow_delim=allow_delim, nested_arrays=nested_arrays)])
     if nf >= 2 and rng.random() < 0.2:
         # two members whose length sets agree in min, max and residues modulo 32 but differ as sets
         w = rng.choice([32, 64])
@@ -78,6 +78,8 @@ def gen_composite(rng, depth, names, small_caps=False, allow_delim=True, force=N
         if rng.random() < 0.5:
             fs[0], fs[1] = ["f0", fs[1][1]], ["f1", fs[0][1]]
     t = {"k": kind, "name": names.fresh(), "ver": [1, 0], "fs": fs}
+    if rng.random() < 0.25:
+        t["consts"] = rng.choice([1, 2, 3])  # constants are attributes but never variants / fields
     if allow_delim and rng.random() < 0.35:
         mx = max_len(t)
         pad8 = (mx + 7) // 8 * 8
@@ -228,6 +230,9 @@ def build(t, cache=None):
         for name, f in t["fs"]:
             ft = build(f, cache)
             attrs.append(pydsdl.PaddingField(ft) if name is None else pydsdl.Field(ft, name))
+        for ci in range(int(t.get("consts", 0))):
+            from pydsdl import _expression
+            attrs.insert(min(ci, len(attrs)), pydsdl.Constant(pydsdl.UnsignedIntegerType(8, CM.SATURATED), "C%d" % ci, _expression.Rational(ci % 200)))
         cls = pydsdl.StructureType if k == "struct" else pydsdl.UnionType
         comps = t["name"].split(".")
         o = cls(name=t["name"], version=pydsdl.Version(*t["ver"]), attributes=attrs, deprecated=bool(t.get("dep")),
@@ -283,6 +288,8 @@ def definition_files(t, files=None):
             lines.append("@deprecated")
         if c["k"] == "union":
             lines.append("@union")
+        for ci in range(int(c.get("consts", 0))):
+            lines.append("uint8 C%d = %d" % (ci, ci % 200))
         for name, f in c["fs"]:
             lines.append(type_text(f) if name is None else "%s %s" % (type_text(f), name))
         lines.append("@sealed" if ext is None else "@extent %d" % ext)
